@@ -34,6 +34,8 @@ pub fn subject_of(c: &Case) -> &'static str {
         Case::Threefish { nw: 4, .. } => "Threefish256::new_with_tweak",
         Case::Threefish { nw: 8, .. } => "Threefish512::new_with_tweak",
         Case::Threefish { .. } => "Threefish1024::new_with_tweak",
+        Case::Hazmat { f: 0, be: 1, .. } => "hazmat::cipher_round@armv8",
+        Case::Hazmat { f: 0, be: 2, .. } => "hazmat::cipher_round@fs32",
         Case::Hazmat { f: 0, .. } => "hazmat::cipher_round",
         Case::Hazmat { f: 1, .. } => "hazmat::equiv_inv_cipher_round",
         Case::Hazmat { f: 2, .. } => "hazmat::mix_columns",
